@@ -67,8 +67,9 @@ AcceptsOnlySealed ==
 \* ... and was delivered verbatim: no modified delivery is ever accepted (C06)
 OpenCall == last.op \in {"open", "single_shot_open"}
 LastAead == IF last.op \in {"open", "seal"} THEN ctx[last.c].suite[3] ELSE last.plain.suite[3]
+\* (deliveries given as bytes - trace validation - carry no descriptor and are judged by AcceptsOnlySealed)
 TamperedRejected ==
-    (OpenCall /\ ~IsVerbatim(last.plain.d) /\ LastAead # AEAD_EXPORT) =>
+    (OpenCall /\ ~IsVerbatim(last.plain.d) /\ last.plain.d.k # "bytes" /\ LastAead # AEAD_EXPORT) =>
         /\ last.kind = "err"
         /\ last.err \in {E_OPEN, E_MLR, E_DEC}
         /\ (last.err = E_MLR => last.pre.ovf)
